@@ -208,8 +208,9 @@ class GateFactory(Modulator):
         ub = lb + self.duration_samples
         if lb >= 0:
             token[:lb] = 0
-        if ub > 0:
-            token[ub:] = 0
+        # Everything at or beyond the end of the gate is silent, including
+        # chunks that begin at or after the end (ub <= 0).
+        token[max(ub, 0):] = 0
         self.offset += samples
         return token
 
